@@ -179,7 +179,7 @@ func c01(c *Ctx) {
 		bases = []int{0, 1, 2, 3, 4}
 	}
 	for n, bi := range bases {
-		for _, sub := range []string{"main", "pathquery", "bodyquery"} {
+		for _, sub := range []string{"main", "pathquery", "bodyquery", "shared"} {
 			pkg := fmt.Sprintf("c01.r%d%s", n, sub)
 			f, cases := corpus.RoutingFile(bi, sub, pkg, "lab/gen/"+strings.ReplaceAll(pkg, ".", ""), strings.ReplaceAll(pkg, ".", ""), &lit, c.Thorough())
 			addPkg(f, func(reg *protoregistry.Files, pt string) []*rpcTarget {
